@@ -2,6 +2,7 @@ package verifh
 
 import (
 	"net/url"
+	"strings"
 	"time"
 
 	otp "github.com/ja7ad/otp"
@@ -14,7 +15,7 @@ import (
 // per-input properties quantify over inputs, but what an input is answered with may silently depend on what the process did
 // just before: one scratch buffer shared by the HOTP and the OCRA derivation, a parameter object left behind by the URL
 // builder, a parser's memo. The oracle of the observed call does not change — only the state it starts from.
-func disturb(kind int) {
+func disturb(kind int, secretText ...string) {
 	if kind == 0 {
 		return
 	}
@@ -56,6 +57,20 @@ func disturb(kind int) {
 		if s, err := otp.NewRawSuite("OCRA-1:HOTP-SHA256-8:C-QN08-PSHA1"); err == nil {
 			otp.GenerateOCRA(sec, s, otp.OCRAInput{Counter: q[:7], Challenge: q[:3], Password: q[:19]})
 		}
+	case 8: // what a careful caller does with key material: decode the very secret that is about to be used, use it, wipe it
+		for _, t := range secretText {
+			for _, v := range []string{t, strings.ToLower(t), " " + t + "\n"} {
+				if k, err := otp.DecodeSecret(v); err == nil {
+					for i := range k {
+						k[i] = 0
+					}
+					full := k[:cap(k)]
+					for i := len(k); i < len(full); i++ {
+						full[i] = 0xEE
+					}
+				}
+			}
+		}
 	case 7: // a long, parseable, unregistered suite string and the registry functions
 		otp.NewRawSuite("OCRA-1:HOTP-SHA1-6:C-C-C-C-C-C-C-C-C-C-C-C-C-C-C-C-C-C-C-C-C-C-C-C-C-C-C-C-C-C-QN08")
 		otp.IsKnownSuite("OCRA-1:HOTP-SHA512-8:QN08-T1M")
@@ -64,7 +79,7 @@ func disturb(kind int) {
 	}
 }
 
-const disturbKinds = 7
+const disturbKinds = 8
 
 // drawDisturb: nothing in five cases of six.
 func drawDisturb(t *rapid.T) int {
